@@ -58,7 +58,18 @@ pub fn run(c: &C02Case) -> Outcome {
 		let anon_urgent = b.ids.contains(&None) && r.sent.iter().any(|s| s.shape == 4 && s.prio == 3);
 		let has_urgent = anon_urgent || members.iter().any(|m| m.prio == 3);
 		let Some(first) = b.ids.first().and_then(|i| *i).and_then(by_id) else { continue };
-		let (tmin, tmax) = throttle_min_max(sc, &r, first.before_us, b.entry_us);
+		let (mut tmin, tmax) = throttle_min_max(sc, &r, first.before_us, b.entry_us);
+		// a throttle raised while the window is open: the hand-over is decided by reading the throttle just in
+		// time, and no such reading can say "elapsed" before the old window has ended; if the new value was in
+		// place (the setter had returned) before that point - counted from when the first event was *sent*, which
+		// is before it was received - every such reading sees the new value. One-sided: a stall cannot violate it.
+		if let (Some((_, t1)), Some(at)) = (sc.throttle_change, r.throttle_changed_us) {
+			let (t0, t1) = (u64::from(sc.throttle), u64::from(t1));
+			if t1 > t0 && at > first.before_us && at < first.before_us + t0 * 1000 {
+				tmin = t1;
+				o.label("throttle-raised-inside-the-window");
+			}
+		}
 		if !has_urgent {
 			// (a) never before the window has elapsed — one-sided, a stall cannot violate it
 			if b.entry_us < first.before_us + tmin * 1000 {
@@ -221,6 +232,14 @@ fn strategy() -> BoxedStrategy<C02Case> {
 			sc.throttle_change = Some((30 + at, b2));
 			sc.throttle_via_field = at % 2 == 0;
 			C02Case { pattern: "throttle-change".into(), sc }
+		}),
+		// throttle raised inside a window, then silence until the old window has ended
+		2 => (prop_oneof![Just((100u32, 500u32)), Just((60, 300)), Just((150, 400))], 10u16..40, any::<bool>()).prop_map(move |((a, b2), at, field)| {
+			// first event at 30 ms, the change 10-40 ms later, the next event after the old window but inside the new one
+			let mut sc = base(a, vec![pass(30), pass((a + 60) as u16), pass(700)]);
+			sc.throttle_change = Some((30 + at, b2));
+			sc.throttle_via_field = field;
+			C02Case { pattern: "throttle-raised-then-silence".into(), sc }
 		}),
 		// throttle changed while idle, then a burst
 		1 => prop_oneof![Just((20u32, 300u32)), Just((300, 20))].prop_map(move |(a, b2)| {
